@@ -29,6 +29,8 @@ func c06(r *core.Report) {
 	ts.checkNoPanic("C06-NO-PANIC")
 	r.Rule("C06-SEND-COUNTER", "can-send implies post-handshake counter", 4)
 	ts.checkSendCounter("C06-SEND-COUNTER")
+	r.Rule("C06-COUNTER-NO-RESET", "the outbound counter never moves back once it is in the post-handshake range", 10)
+	ts.checkCounterNoReset("C06-COUNTER-NO-RESET")
 	r.Rule("C06-PAIR-CLOSURE", "two honest sessions under arbitrary delivery of their genuine messages: no panic, one round from ready", 1)
 	ts.checkPairClosure("C06-PAIR-CLOSURE")
 }
